@@ -117,8 +117,15 @@ impl Drop for PendingRequestGuard {
             return;
         }
 
+        #[cfg(feature = "verif-hooks")]
+        crate::verif_hooks::probe("guard.before_remove", self.request_id);
         let mut pending = lock_pending_map(&self.inner.pending);
         pending.remove(&self.request_id);
+        #[cfg(feature = "verif-hooks")]
+        {
+            drop(pending);
+            crate::verif_hooks::probe("guard.after_remove", self.request_id);
+        }
     }
 }
 
@@ -581,6 +588,10 @@ impl WebSocketClient {
 
         let (sender, receiver) = oneshot::channel();
         let mut pending_guard = PendingRequestGuard::register(&self.inner, id, sender)?;
+        #[cfg(feature = "verif-hooks")]
+        crate::verif_hooks::probe("client.after_register", id);
+        #[cfg(feature = "verif-hooks")]
+        crate::verif_hooks::probe("client.before_write", id);
 
         self.write_request(&msg).await?;
 
@@ -780,8 +791,24 @@ fn spawn_response_loop(mut reader: WsReader, inner: std::sync::Weak<WebSocketCli
                 }
             };
 
+            #[cfg(feature = "verif-hooks")]
+            match &dispatch {
+                PendingDispatch::Matched { response, .. } => {
+                    crate::verif_hooks::probe("reader.after_match", response.header.id)
+                }
+                PendingDispatch::Notify { response, .. } => {
+                    crate::verif_hooks::probe("reader.notify", response.header.id)
+                }
+                PendingDispatch::DroppedNotify => crate::verif_hooks::probe("reader.notify", 0),
+                PendingDispatch::Unrecognized { got_id } => {
+                    crate::verif_hooks::probe("reader.unmatched", *got_id)
+                }
+            }
+
             match dispatch {
                 PendingDispatch::Matched { sender, response } => {
+                    #[cfg(feature = "verif-hooks")]
+                    crate::verif_hooks::probe("reader.before_deliver", response.header.id);
                     let _ = sender.send(Ok(response));
                 }
                 PendingDispatch::Notify { sender, response } => {
@@ -818,7 +845,11 @@ fn spawn_response_loop(mut reader: WsReader, inner: std::sync::Weak<WebSocketCli
                     );
                 }
             }
+            #[cfg(feature = "verif-hooks")]
+            crate::verif_hooks::probe("reader.after_dispatch", 0);
         }
+        #[cfg(feature = "verif-hooks")]
+        crate::verif_hooks::probe("reader.exit", 0);
     });
 }
 
@@ -847,7 +878,11 @@ async fn fail_all_pending(inner: &std::sync::Weak<WebSocketClientInner>, err: Re
     // socket already known to be dead, which on a half-open connection (or
     // behind another task mid-flush) can stall for TCP-retransmit durations.
     // The subscriber should not wait on it to learn the connection is gone.
+    #[cfg(feature = "verif-hooks")]
+    crate::verif_hooks::probe("failall.enter", 0);
     take_notify_sender(&inner_ref);
+    #[cfg(feature = "verif-hooks")]
+    crate::verif_hooks::probe("failall.after_take_notify", 0);
 
     // Request waiters next, still ahead of `close_writer`, which needs the writer
     // mutex: a caller stalled in `write_request` (the peer stopped reading)
@@ -859,12 +894,22 @@ async fn fail_all_pending(inner: &std::sync::Weak<WebSocketClientInner>, err: Re
         inner_ref.failed.store(true, Ordering::Relaxed);
         pending.drain().collect::<Vec<_>>()
     };
+    #[cfg(feature = "verif-hooks")]
+    crate::verif_hooks::probe("failall.after_drain", waiters.len() as u64);
 
     for (request_id, sender) in waiters {
+        #[cfg(feature = "verif-hooks")]
+        crate::verif_hooks::probe("failall.before_send", request_id);
         let _ = sender.send(Err(clone_fatal_error_for_waiter(&err, request_id)));
+        #[cfg(feature = "verif-hooks")]
+        crate::verif_hooks::probe("failall.after_send", request_id);
     }
 
     let _ = close_writer(&inner_ref).await;
+    #[cfg(feature = "verif-hooks")]
+    crate::verif_hooks::probe("failall.after_shutdown", 0);
+    #[cfg(feature = "verif-hooks")]
+    crate::verif_hooks::probe("failall.done", 0);
 }
 
 /// Empty the notify slot, dropping the sender *after* the mutex guard is
